@@ -450,6 +450,8 @@ def reconnect_case(case) -> Dict[str, Any]:
                     got.append(m.header.msg_type)
             if got != [U8]:
                 probs.append({"kind": "read-after-reconnect", "expected": [U8], "got": got})
+    except N.WouldBlock as e:
+        probs.append({"kind": "reconnect-read-blocks", "exc": str(e)[:120]})
     except Exception as e:
         probs.append({"kind": "reconnect-raised", "exc": f"{type(e).__name__}: {str(e)[:120]}"})
     finally:
@@ -486,6 +488,8 @@ def redefine_case(case) -> Dict[str, Any]:
         try:
             m = c.read_message(timeout=0, sync_check=sync)
             return ("none",) if m is None else ("msg", len(bytes(m.data)))
+        except N.WouldBlock:
+            return ("block",)
         except CL.InvalidMessageDefinition:
             return ("exc", "InvalidMessageDefinition")
         except Exception as e:
